@@ -112,6 +112,45 @@ func matchField(doc types.Value, exists bool, filter types.Value) (bool, error) 
 	return true, nil
 }
 
+// validate reports the error match would return for filter on some document, without looking at any document.
+func validate(filter types.Value) error {
+	f, ok := filter.(types.Map)
+	if !ok {
+		return nil
+	}
+
+	for k, value := range f.Range() {
+		key, ok := k.(types.String)
+		if !ok {
+			return errors.WithMessagef(ErrUnsupportedType, "key: %v", k.Interface())
+		}
+
+		if !strings.HasPrefix(key.String(), "$") {
+			if err := validate(value); err != nil {
+				return err
+			}
+			continue
+		}
+
+		switch key.String() {
+		case "$exists", "$eq", "$ne", "$gt", "$lt", "$gte", "$lte":
+		case "$and", "$or":
+			vals, ok := value.(types.Slice)
+			if !ok {
+				return errors.WithMessagef(ErrUnsupportedType, "value: %v", types.InterfaceOf(value))
+			}
+			for _, sub := range vals.Range() {
+				if err := validate(sub); err != nil {
+					return err
+				}
+			}
+		default:
+			return errors.WithMessagef(ErrUnsupportedOperation, "operation: %v", key.String())
+		}
+	}
+	return nil
+}
+
 func patch(doc, update types.Map) (types.Map, error) {
 	doc = doc.Mutable()
 	for k, value := range update.Range() {
